@@ -24,10 +24,11 @@ func (w *World) sign(t *transaction.Transaction, by *Wallet) TxMeta {
 }
 
 // signForeign signs the transaction as if for another network id.
-func (w *World) signForeign(t *transaction.Transaction, by *Wallet) TxMeta {
+func (w *World) signForeign(t *transaction.Transaction, by *Wallet, netid uint64) TxMeta {
 	c := *t
 	c.Signature = bitcrypto.Signature{}
-	binary.LittleEndian.PutUint64(c.Signature[:], 0x1122334455667788)
+	// netid 0: the master chain signs with an all-zero placeholder (no network tag at all)
+	binary.LittleEndian.PutUint64(c.Signature[:], netid)
 	data := c.Serialize()
 	sig, err := bitcrypto.Sign(data, by.Priv)
 	if err != nil {
@@ -55,6 +56,9 @@ func (w *World) genTxs(parent *TNode, maxTx int, pBad int) (txs []*transaction.T
 	badAt := -1
 	if pBad > 0 && w.rng.Intn(100) < pBad {
 		badAt = w.rng.Intn(ntx)
+	}
+	if w.forceCorrupt != "" {
+		badAt = 0
 	}
 	w.view(parent.Snap, func(v *View) {
 		st := v.Stats()
@@ -115,11 +119,14 @@ func (w *World) genTxs(parent *TNode, maxTx int, pBad int) (txs []*transaction.T
 			}
 			corrupt := ""
 			if k == badAt {
-				corrupt = []string{"sig-bit", "sig-other-key", "sig-foreign", "nonce+1", "nonce-1", "fee-1", "overdraft",
+				corrupt = []string{"sig-bit", "sig-other-key", "sig-foreign", "sig-masterchain", "sig-netid+1", "nonce+1", "nonce-1", "fee-1", "overdraft",
 					"tamper-after-sign", "early-unstake", "foreign-fund", "dup-delegate", "wrong-prev-delegate",
 					"delegate-id-0", "delegate-id-1", "outputs-33", "outputs-0", "overflow-outputs", "stake-below-min",
 					"stake-wrong-delegate", "stake-wrong-prevunlock", "unstake-too-much", "unstake-fee-gt-amount",
-					"set-delegate-missing", "set-delegate-with-funds", "name-too-long", "version-0", "version-6-as-1"}[w.rng.Intn(27)]
+					"set-delegate-missing", "set-delegate-with-funds", "name-too-long", "version-0", "version-6-as-1"}[w.rng.Intn(29)]
+				if w.forceCorrupt != "" {
+					corrupt = w.forceCorrupt
+				}
 			}
 			var del = v.Delegate(s.DelegateId)
 			var myFund uint64
@@ -308,7 +315,11 @@ func (w *World) genTxs(parent *TNode, maxTx int, pBad int) (txs []*transaction.T
 			case "sig-other-key":
 				m = w.sign(t, w.wallets[(wi+1)%len(w.wallets)])
 			case "sig-foreign":
-				m = w.signForeign(t, wal)
+				m = w.signForeign(t, wal, 0x1122334455667788)
+			case "sig-masterchain":
+				m = w.signForeign(t, wal, 0)
+			case "sig-netid+1":
+				m = w.signForeign(t, wal, config.NETWORK_ID+1)
 			case "sig-bit":
 				m = w.sign(t, wal)
 				t.Signature[w.rng.Intn(64)] ^= 1 << uint(w.rng.Intn(8))
